@@ -43,7 +43,7 @@ func init() {
 	fw.Register(&fw.Check{
 		ID:    "C09",
 		Level: "exploration",
-		Rule: "(statement, storage path, signer set) triples as described in DESIGN.md §6 C09, sampled; every case is a two-push history on the in-memory Storer verified with VerifyRefFull (and VerifyMergeable for the prediction side in C19). " +
+		Rule: "(statement, storage path, signer set) triples as described in DESIGN.md §6 C09, sampled; every case is a two-push history (or, in a quarter of the cases, the creation of a signed tag whose approvals name the tagged commit, with neighbours differing in tag name, prior state or tagged commit) on the in-memory Storer verified with VerifyRefFull (and VerifyMergeable for the prediction side in C19). " +
 			"distinct = hash of the case; non-trivial = at least one attestation is present whose statement or path differs from the canonical placement, or whose signers include both trusted and untrusted keys",
 		Assumptions: []string{
 			"principals are tuf v0.2 Persons with one key each and an associated identity for the app",
@@ -86,9 +86,23 @@ type c09Case struct {
 	Auths       []c09Auth   `json:"auths"`
 	Reviews     []c09Review `json:"reviews"`
 	After       bool        `json:"after"` // attestations recorded after the entry instead of before
+	// Tag: the change under test is the creation of refs/tags/v1 (approvals name the
+	// tagged commit instead of a tree); code-review approvals do not apply to tags
+	Tag bool `json:"tag,omitempty"`
 }
 
 var c09X = c09Change{Ref: refMain, From: "prev", To: "x"}
+
+// c09XTag is the change under test in tag mode: the first entry for refs/tags/v1,
+// pointing (through a signed tag object) at commit x.
+var c09XTag = c09Change{Ref: refTag, From: "zero", To: "x"}
+
+func (cs c09Case) x() c09Change {
+	if cs.Tag {
+		return c09XTag
+	}
+	return c09X
+}
 
 func identityOf(k string) string { return "user-" + k }
 
@@ -102,7 +116,7 @@ func c09Policy(cs c09Case) scen.Policy {
 	p := scen.Policy{
 		RootPrincipals: []scen.Principal{rootPrincipal}, RootThreshold: 1, RootSigners: []string{"root"},
 		TargetsPrincipals: []scen.Principal{rootPrincipal}, TargetsThreshold: 1,
-		Files: []scen.RuleFile{{Name: "targets", Principals: prs, Signers: []string{"root"}, Rules: []scen.Rule{{Name: "protect-main", Patterns: []string{"git:" + refMain}, Principals: ids, Threshold: cs.Threshold}}}},
+		Files: []scen.RuleFile{{Name: "targets", Principals: prs, Signers: []string{"root"}, Rules: []scen.Rule{{Name: "protect-main", Patterns: []string{"git:" + refMain}, Principals: ids, Threshold: cs.Threshold}, {Name: "protect-tags", Patterns: []string{"git:refs/tags/*"}, Principals: ids, Threshold: cs.Threshold}}}},
 	}
 	switch cs.App {
 	case "trusted":
@@ -120,6 +134,8 @@ type c09Env struct {
 	treeX   githash.Hash
 	treeY   githash.Hash
 	commitX githash.Hash
+	commitY githash.Hash
+	tag     bool
 }
 
 func (e *c09Env) resolve(ch c09Change) (ref, from, to string) {
@@ -132,15 +148,23 @@ func (e *c09Env) resolve(ch c09Change) (ref, from, to string) {
 	default:
 		from = e.other.String()
 	}
-	if ch.To == "x" {
+	switch {
+	case e.tag && ch.To == "x":
+		to = e.commitX.String()
+	case e.tag:
+		to = e.commitY.String()
+	case ch.To == "x":
 		to = e.treeX.String()
-	} else {
+	default:
 		to = e.treeY.String()
 	}
 	return
 }
 
-func c09Statement(version, ref, from, to string) (*ita.Statement, error) {
+func c09Statement(version, ref, from, to string, tag bool) (*ita.Statement, error) {
+	if tag {
+		return attestations.NewReferenceAuthorizationForTag(ref, from, to)
+	}
 	if version == "v01" {
 		return authorizationsv01.NewReferenceAuthorization(ref, from, to)
 	}
@@ -153,7 +177,7 @@ func c09WriteAttestations(e *c09Env, cs c09Case) error {
 	seen := map[string]bool{}
 	for _, a := range cs.Auths {
 		ref, from, to := e.resolve(a.Statement)
-		stmt, err := c09Statement(a.Version, ref, from, to)
+		stmt, err := c09Statement(a.Version, ref, from, to, e.tag)
 		if err != nil {
 			return err
 		}
@@ -244,11 +268,11 @@ func c09Credited(cs c09Case) (credited map[string]bool, canonicalEnough bool) {
 	if !cs.After {
 		firstAtX := true
 		for _, a := range cs.Auths {
-			storedAtX := a.Path == c09X && firstAtX // a second blob for the same path is not written
-			if a.Path == c09X {
+			storedAtX := a.Path == cs.x() && firstAtX // a second blob for the same path is not written
+			if a.Path == cs.x() {
 				firstAtX = false
 			}
-			if a.Statement != c09X {
+			if a.Statement != cs.x() {
 				continue
 			}
 			// soundness: a statement naming exactly X counts wherever it is stored
@@ -264,11 +288,11 @@ func c09Credited(cs c09Case) (credited map[string]bool, canonicalEnough bool) {
 		if cs.App == "trusted" {
 			firstRV := true
 			for _, rv := range cs.Reviews {
-				storedAtX := rv.Path == c09X && firstRV
-				if rv.Path == c09X {
+				storedAtX := rv.Path == cs.x() && firstRV
+				if rv.Path == cs.x() {
 					firstRV = false
 				}
-				if rv.Statement != c09X || rv.SignedBy != "app" {
+				if rv.Statement != cs.x() || rv.SignedBy != "app" {
 					continue
 				}
 				dismissed := map[string]bool{}
@@ -296,15 +320,15 @@ func c09Credited(cs c09Case) (credited map[string]bool, canonicalEnough bool) {
 // a review signed by a non-app key): liveness is asserted only then.
 func c09Clean(cs c09Case) bool {
 	for _, a := range cs.Auths {
-		if a.Path == c09X && a.Statement != c09X {
+		if a.Path == cs.x() && a.Statement != cs.x() {
 			return false
 		}
-		if len(a.Signers) == 0 && a.Path == c09X {
+		if len(a.Signers) == 0 && a.Path == cs.x() {
 			return false
 		}
 	}
 	for _, rv := range cs.Reviews {
-		if rv.Path == c09X && (rv.Statement != c09X || rv.SignedBy != "app") {
+		if rv.Path == cs.x() && (rv.Statement != cs.x() || rv.SignedBy != "app") {
 			return false
 		}
 	}
@@ -315,7 +339,7 @@ func c09Judge(c *fw.Ctx, cs c09Case) {
 	c.Eval(1)
 	rsl.VerifResetCache()
 	b := scen.NewMem()
-	e := &c09Env{b: b}
+	e := &c09Env{b: b, tag: cs.Tag}
 	if err := scen.StageAndApply(b, c09Policy(cs), "root"); err != nil {
 		c.Inconclusive("policy: " + trunc(err.Error(), 60))
 		return
@@ -327,7 +351,7 @@ func c09Judge(c *fw.Ctx, cs c09Case) {
 	other, _ := b.CommitFiles(map[string]string{"f": "other"}, nil, "other", nil)
 	cx, _ := b.CommitFiles(map[string]string{"f": "x"}, []githash.Hash{first}, "x", nil)
 	cy, _ := b.CommitFiles(map[string]string{"f": "y"}, []githash.Hash{first}, "y", nil)
-	e.prev, e.other, e.commitX = first, other, cx
+	e.prev, e.other, e.commitX, e.commitY = first, other, cx, cy
 	e.treeX, _ = b.GetCommitTreeID(cx)
 	e.treeY, _ = b.GetCommitTreeID(cy)
 	// authorize the base push canonically so that the history up to X is valid
@@ -360,10 +384,26 @@ func c09Judge(c *fw.Ctx, cs c09Case) {
 			return
 		}
 	}
-	_ = b.SetRef(refMain, cx)
-	if _, err := scen.RecordEntry(b, refMain, cx, cs.EntrySigner); err != nil {
-		c.Inconclusive("entry X")
-		return
+	verifyRef := refMain
+	if cs.Tag {
+		// the tag object is signed by a trusted principal; the entry by cs.EntrySigner
+		tagID, err := b.Tag(cx, "v1", "release", keys.Get(cs.Trusted[0]))
+		if err != nil {
+			c.Inconclusive("tag object")
+			return
+		}
+		_ = b.SetRef(refTag, tagID)
+		if _, err := scen.RecordEntry(b, refTag, tagID, cs.EntrySigner); err != nil {
+			c.Inconclusive("entry X (tag)")
+			return
+		}
+		verifyRef = refTag
+	} else {
+		_ = b.SetRef(refMain, cx)
+		if _, err := scen.RecordEntry(b, refMain, cx, cs.EntrySigner); err != nil {
+			c.Inconclusive("entry X")
+			return
+		}
 	}
 	if cs.After {
 		if err := c09WriteAttestations(e, cs); err != nil {
@@ -374,12 +414,12 @@ func c09Judge(c *fw.Ctx, cs c09Case) {
 	credited, canonicalEnough := c09Credited(cs)
 	nontrivial := false
 	for _, a := range cs.Auths {
-		if a.Statement != c09X || a.Path != c09X {
+		if a.Statement != cs.x() || a.Path != cs.x() {
 			nontrivial = true
 		}
 	}
 	for _, rv := range cs.Reviews {
-		if rv.Statement != c09X || rv.Path != c09X || rv.SignedBy != "app" || len(rv.Dismissed) > 0 {
+		if rv.Statement != cs.x() || rv.Path != cs.x() || rv.SignedBy != "app" || len(rv.Dismissed) > 0 {
 			nontrivial = true
 		}
 	}
@@ -387,7 +427,10 @@ func c09Judge(c *fw.Ctx, cs c09Case) {
 		c.Nontrivial(fw.Hash(cs))
 	}
 	c.Guard(cs, func() {
-		_, err := policy.NewPolicyVerifier(b).VerifyRefFull(scen.Ctx, refMain)
+		_, err := policy.NewPolicyVerifier(b).VerifyRefFull(scen.Ctx, verifyRef)
+		if cs.Tag {
+			c.Count("tag-mode:"+strings.SplitN(errClass(err), ":", 2)[0], 1)
+		}
 		c.Count("observed:"+strings.SplitN(errClass(err), ":", 2)[0], 1)
 		if err == nil && len(credited) < cs.Threshold {
 			c.Violation("approval-overcount", map[string]string{"cause": c09Cause(cs)}, fmt.Sprintf("change X accepted with threshold %d although only %v can be credited for exactly X", cs.Threshold, keysOf(credited)), cs)
@@ -408,7 +451,7 @@ func c09Cause(cs c09Case) string {
 		causes["attestation-recorded-after-entry"] = true
 	}
 	for _, a := range cs.Auths {
-		if a.Statement != c09X && a.Path == c09X {
+		if a.Statement != cs.x() && a.Path == cs.x() {
 			causes["authorization-for-other-change-at-X-path"] = true
 		}
 		for _, s := range a.Signers {
@@ -424,7 +467,7 @@ func c09Cause(cs c09Case) string {
 		}
 	}
 	for _, rv := range cs.Reviews {
-		if rv.Statement != c09X && rv.Path == c09X {
+		if rv.Statement != cs.x() && rv.Path == cs.x() {
 			causes["review-for-other-change-at-X-path"] = true
 		}
 		if rv.SignedBy != "app" {
@@ -453,7 +496,24 @@ func c09Gen(r *rand.Rand) c09Case {
 	cs.EntrySigner = []string{"k1", "k1", "kx", "", "k2"}[r.IntN(5)]
 	cs.App = []string{"trusted", "trusted", "untrusted", "absent"}[r.IntN(4)]
 	cs.After = r.IntN(8) == 0
+	cs.Tag = r.IntN(4) == 0
 	change := func() c09Change {
+		if cs.Tag {
+			switch r.IntN(8) {
+			case 0:
+				return c09Change{Ref: "refs/tags/v2", From: "zero", To: "x"}
+			case 1:
+				return c09Change{Ref: refTag, From: "prev", To: "x"}
+			case 2:
+				return c09Change{Ref: refTag, From: "other", To: "x"}
+			case 3:
+				return c09Change{Ref: refTag, From: "zero", To: "y"}
+			case 4:
+				return c09Change{Ref: refMain, From: "zero", To: "x"}
+			default:
+				return cs.x()
+			}
+		}
 		switch r.IntN(8) {
 		case 0:
 			return c09Change{Ref: refRel, From: "prev", To: "x"}
@@ -464,7 +524,7 @@ func c09Gen(r *rand.Rand) c09Case {
 		case 3:
 			return c09Change{Ref: refMain, From: "prev", To: "y"}
 		default:
-			return c09X
+			return cs.x()
 		}
 	}
 	signers := func() []string {
@@ -486,13 +546,16 @@ func c09Gen(r *rand.Rand) c09Case {
 			a.Path = a.Statement
 		}
 		if r.IntN(3) == 0 {
-			a.Path = c09X // hostile: whatever the statement says, file it where X is looked up
+			a.Path = cs.x() // hostile: whatever the statement says, file it where X is looked up
 		}
 		cs.Auths = append(cs.Auths, a)
 	}
 	nr := r.IntN(2)
 	if cs.App == "absent" && r.IntN(2) == 0 {
 		nr = 0
+	}
+	if cs.Tag {
+		nr = 0 // code-review approvals are not consulted for tags
 	}
 	for i := 0; i < nr; i++ {
 		rv := c09Review{Statement: change(), SignedBy: []string{"app", "app", "app", "kx", "k1"}[r.IntN(5)]}
@@ -508,7 +571,7 @@ func c09Gen(r *rand.Rand) c09Case {
 			rv.Approvers = []string{identityOf("k2")}
 		}
 		if r.IntN(3) == 0 {
-			rv.Path = c09X
+			rv.Path = cs.x()
 		} else {
 			rv.Path = rv.Statement
 		}
